@@ -98,10 +98,10 @@ def gans(lk):
 def gop(o):
     t = o["t"]
     if t == "log":
-        return "(COp (OLog %s (Some %d)))" % (gev(o), o["bt"])
+        return "(GCOp (COp (OLog %s (Some %d))))" % (gev(o), o["bt"])
     if t == "head":
         lks = core.glist("(%d, %s)" % (lk["tx"], gans(lk)) for lk in o["lk"])
-        return "(CHead %d %s)" % (o["n"], lks)
+        return "(GCOp (CHead %d %s))" % (o["n"], lks)
     if t == "reobs":
         hb = "None" if o["hb"] < 0 else "(Some %d)" % o["hb"]
         ha = "None" if o["ha"] < 0 else "(Some %d)" % o["ha"]
@@ -114,7 +114,15 @@ def gop(o):
                 ev = "None" if l["ev"] is None else "(Some %s)" % gev(l["ev"])
                 logs.append("(Some (mkRLog %d (Some %d) %s))" % (l["a"], int(l["t0"], 16), ev))
             rc = "(Some (mkRcpt %d (Some %d) %s))" % (o["rc"]["st"], o["rc"]["blk"], core.glist(logs))
-        return "(COp (OReobs %s %s %s %s))" % (hb, ha, rc, bt)
+        return "(GCOp (COp (OReobs %s %s %s %s)))" % (hb, ha, rc, bt)
+    # ---- extension X4: Run returns and is re-entered on the same Watcher value
+    if t == "loglost":
+        return "(GCLogLost %s)" % gev(o["ev"])
+    if t == "polldead":
+        return "GCPollDead"
+    if t == "restart":
+        aset = "None" if (o["asked"] < 0 or o["seterr"]) else "(Some %s)" % gzl(o["keys"])
+        return "(GCRestart %s %s %s)" % (gzopt(o["ai"]), gz(o["asked"]), aset)
     raise ValueError(t)
 
 
@@ -126,12 +134,13 @@ def ggroup(g):
     ops = core.glist(gop(o) for o in g["ops"])
     fw = core.glist(gmsg(m) for m in g["fw"])
     pend = core.glist(gkey(*k) for k in g["pend"])
-    return "(%s, %s, %s)" % (ops, fw, pend)
+    sets = core.glist("(%s, %d)" % (gzl(x["keys"]), x["idx"]) for x in g.get("sets") or [])
+    return "(%s, %s, %s, %s, %d)" % (ops, fw, pend, sets, g.get("died", 0))
 
 
 def gcase(r):
-    # contract address 1 = the configured core contract (mRLog.a: 1 core, 2 other)
-    return "(mkCfg %s 1 %d, %s)" % (core.gbool(r["cfg"]["wait"]), r["chain"], core.glist(ggroup(g) for g in r["groups"]))
+    # contract address 1 = the configured core contract (mRLog.a: 1 core, 2 other); cur0 = index of the set the first Run fetched
+    return "(mkCfg %s 1 %d, %s, %s)" % (core.gbool(r["cfg"]["wait"]), r["chain"], gzopt(r.get("cur0", 0)), core.glist(ggroup(g) for g in r["groups"]))
 
 
 def gpoll(r):
@@ -216,7 +225,8 @@ def run(ctx):
         for s in r["script"]:
             k = s["op"] + (":" + s["how"] if s.get("how") else "") + (":errall" if s.get("errall") else "") + (":errtx" if s.get("errtx") else "") + \
                 (":pollfail" if s.get("pollfail") else "") + (":bump" if s.get("bump") else "") + (":headerr" if s.get("headerr") else "") + \
-                (":rcpterr" if s.get("rcpterr") else "") + (":bbherr" if s.get("bbherr") else "") + (":extras" if s.get("extras") else "")
+                (":rcpterr" if s.get("rcpterr") else "") + (":bbherr" if s.get("bbherr") else "") + (":extras" if s.get("extras") else "") + \
+                (":" + s["kill"] if s.get("kill") else "") + (":gsfail-" + s["gsfail"] if s.get("gsfail") else "") + (":upg" if s.get("upg") else "")
             ophist[k] = ophist.get(k, 0) + 1
             if s["op"] == "head" and s.get("to", 0) > prev:
                 d = s["to"] - prev
@@ -255,6 +265,18 @@ def run(ctx):
                     replay={"cfg": r["cfg"], "script": r["script"], "maxwait": r.get("maxwait"), "monitor": [m for m in r["mon"]],
                             "observed": r["groups"]}, key=key)
     ctx.cov["monitor_messages"] = nmon
+    # experimental monitors of extension X4: what a restart of Run does to liveness (reported in reports/report_ext_X4.md and
+    # findings/C10_restart_*.json; NOT registered as problems until a decision about them is taken)
+    exps = {}
+    for r in rows:
+        for m in r.get("exp") or []:
+            key, _, text = m.partition("|")
+            if key not in exps:
+                exps[key] = [0, text, r["cfg"]["name"]]
+            exps[key][0] += 1
+    ctx.cov["experimental_monitor_classes"] = {k: {"occurrences": v[0], "first": v[1][:400], "history": v[2]} for k, v in sorted(exps.items())}
+    ctx.cov["restarts_of_Run"] = stats.get("restarts", 0)
+    ctx.cov["histories_with_restarts"] = sum(1 for r in rows if (r.get("stats") or {}).get("restarts"))
     ctx.cov["monitor_classes"] = {k: v[0] for k, v in seen.items()}
     prows = []
     grows = []
@@ -285,14 +307,14 @@ def run(ctx):
             ctx.cov["poller_mismatches"] = len(pbad)
     # ---- model vs implementation, history by history, inside Coq
     good = [r for r in rows if not r.get("harness")]
-    okdef = "Definition ok (c : cfg * list cgroup) : bool := let '(w, gs) := c in check_history w gs."
-    bad = core.run_cases(ctx, "cases_C10", good, HDR, "cfg * list cgroup", gcase, okdef,
+    okdef = "Definition ok (c : cfg * option Z * list ggroup) : bool := let '(w, cur0, gs) := c in check_ghistory w cur0 gs."
+    bad = core.run_cases(ctx, "cases_C10", good, GHDR, "cfg * option Z * list ggroup", gcase, okdef,
                          weight=lambda r: sum(len(g["ops"]) + len(g["pend"]) for g in r["groups"]))
     if bad is None:
         return
     for i in bad[:3]:
         r = good[i]
-        ctx.problem("correspondence", "model history differs from Watcher.Run (forwarded messages / pending set / receipt lookups)",
+        ctx.problem("correspondence", "model history differs from Watcher.Run (forwarded messages / pending set / receipt lookups / guardian sets sent / returns of Run)",
                     "history %s" % r["cfg"]["name"], concrete=False,
                     replay={"cfg": r["cfg"], "script": r["script"], "observed": r["groups"]})
     ctx.cov["traces_validated_against_impl"] = len(good)
